@@ -20,7 +20,8 @@
 EXTENDS Fitch
 CONSTANTS K,            \* fundamental states 0..K-1, gap = K
           MaxLeaves, MaxLeaves2, LargerFirstFrom, Cells1, Cells2, Weights, FullLeaves, RootMinLeaves,
-          SMLeaves, SMLeaves2, SMCells1, SMCells2, SMWeights, MaxOps, Shipped
+          SMLeaves, SMLeaves2, SMCells1, SMCells2, SMWeights, MaxOps, Shipped,
+          PLeaves, PCells, TipsNarrowed
 VARIABLES p, nc, mat, g, cache, res, nops
 vars == <<p, nc, mat, g, cache, res, nops>>
 
@@ -153,6 +154,50 @@ NextS == \/ \E rows \in SMMatrices, w \in SMWeightVecs, gm \in BOOLEAN : Score(r
          \/ \E x \in NodeIds : Reroot(x)
          \/ \E x \in NodeIds : RotateAt(x)
 SpecS == InitS /\ [][NextS]_vars
+
+\* ------------------------------------------------------------------ SpecP: the pass functions used directly
+\* One taxon_state_sets_map object (variable mat = [orig, gm, sets]) built once from a matrix and handed to
+\* fitch_down_pass / fitch_up_pass on several trees in sequence.  DownPassOn(k, w) scores the k-th representative
+\* topology on the taxa of the map (a fresh tree object unless it is the current one), UpPass finalises the
+\* current tree.  PurePass: every down pass returns the minimum for (its tree, the ORIGINAL data);
+\* MapUnchanged: no pass changes the contents of the map.  TipsNarrowed = TRUE models an up pass that narrows
+\* ambiguous tip sets in place (AsNarrowed_Fitch.cfg: TLC must find the violation).
+PTrees(L) == IF L = 2 THEN <<BifTree(<<0, 1, 1>>, <<1, 2>>)>>
+             ELSE IF L = 3 THEN [i \in 1..3 |-> BifTree(<<0, 1, 2, 2, 1>>, <<<<1, 2, 3>>, <<1, 3, 2>>, <<2, 3, 1>>>>[i])]
+             ELSE [i \in 1..3 |-> BifTree(<<0, 1, 2, 2, 1, 5, 5>>, <<<<1, 2, 3, 4>>, <<1, 3, 2, 4>>, <<1, 4, 2, 3>>>>[i])]
+InitP == /\ \E L \in 2..PLeaves : \E nch \in (IF L = 2 THEN 1..2 ELSE 1..1) : \E rows \in [1..L -> [1..nch -> PCells]] : \E gm \in BOOLEAN :
+              /\ mat = [orig |-> rows, gm |-> gm, sets |-> MapOf([k |-> K, rows |-> rows], gm)]
+              /\ g = PTrees(L)[1]
+         /\ cache = [x \in 1..g.n |-> <<>>]
+         /\ res = <<>> /\ nops = 0 /\ p = 0 /\ nc = 0
+DownPassOn(k, w) ==
+    /\ nops < MaxOps
+    /\ k <= Len(PTrees(Len(mat.orig)))
+    /\ Len(w) \in {0, Len(mat.orig[1])}
+    /\ LET t == PTrees(Len(mat.orig))[k]
+           nch == Len(mat.orig[1])
+           ls == LeafSetsFromMap(t, mat.sets)
+           r == Scored(PassCounts(t, ls, nch), nch, w) IN
+       /\ g' = t
+       /\ cache' = PassCache(t, ls)
+       /\ res' = [rows |-> mat.orig, w |-> w, gm |-> mat.gm, score |-> r.score, bychar |-> r.bychar, over |-> r.over]
+    /\ nops' = nops + 1
+    /\ UNCHANGED <<p, nc, mat>>
+UpPass ==
+    /\ nops < MaxOps
+    /\ res # <<>>                                   \* after a down pass on the current tree
+    /\ mat' = IF TipsNarrowed THEN [mat EXCEPT !.sets = NarrowedMap(g, mat.sets, cache)] ELSE mat
+    /\ res' = <<>> /\ nops' = nops + 1
+    /\ UNCHANGED <<g, cache, p, nc>>                \* (the final sets written on internal nodes are never read)
+NextP == \/ \E k \in 1..3, w \in SMWeightVecs : DownPassOn(k, w)
+         \/ UpPass
+SpecP == InitP /\ [][NextP]_vars
+PurePass == res # <<>> =>
+    LET m == [k |-> K, rows |-> mat.orig] IN
+    /\ ~res.over
+    /\ res.score = ExpectedTotal(g, m, res.w, mat.gm)
+    /\ res.bychar = ExpectedByChar(g, m, res.w, mat.gm)
+MapUnchanged == [][mat' = mat]_vars
 
 TreeOk == TreeClass(g) = "ok"
 \* every Score returns the minimum for the current tree and the matrix passed in, for every history
